@@ -27,9 +27,11 @@ import traceback
 VERIF = os.path.dirname(os.path.dirname(os.path.abspath(__file__)))
 LEAN = os.path.join(VERIF, "lean")
 WORK = os.path.join(VERIF, ".work")
-EVID = os.path.join(VERIF, "evidence")
-REPLAY = os.path.join(EVID, "replay")
 REPO = os.environ.get("FLATLAND_REPO", "/repo")
+# a run against a scratch copy of the repository (mutation drills: FLATLAND_REPO=<copy>) is not evidence about /repo:
+# its evidence and replay files go under .work/ and never overwrite evidence/
+EVID = os.path.join(VERIF, "evidence") if os.path.realpath(REPO) == "/repo" else os.path.join(WORK, "scratch-evidence")
+REPLAY = os.path.join(EVID, "replay")
 DRIVER = os.path.join(LEAN, ".lake", "build", "bin", "driver")
 ALLOWED_AXIOMS = {"propext", "Classical.choice", "Quot.sound"}
 FORBIDDEN = re.compile(
